@@ -440,6 +440,27 @@ func c10Backward(u *vfUnit, part int) {
 	if r, err := rs.R.Phase(60*time.Second, vfPkt{Type: rfRead, ID: id, Handle: hFile, Off: 10, Len: 50}); err != nil || len(r) != 1 || r[0].Type != rfData || string(r[0].Data) != string(vfPattern(1, 10, 50)) {
 		u.Violation("backward-data", fmt.Sprintf("READ of handler data answered %v %v", r, err), nil)
 	}
+	// reads that reach past the end of the file: the handler returns (n>0, io.EOF) and the bytes must arrive;
+	// only a read that starts at or beyond the end is answered with EOF. On every kind of readable handle.
+	for _, pf := range []uint32{rfRead_, rfRead_ | rfWrite_} {
+		h := open(vfPkt{Type: rfOpen, Path: "/file", Pflags: pf})
+		for _, c := range []struct{ off, l, want int }{{90, 50, 10}, {0, 200, 100}, {99, 1, 1}, {99, 2, 1}, {100, 10, -1}, {5000, 10, -1}, {50, 50, 50}} {
+			id++
+			r, err := rs.R.Phase(60*time.Second, vfPkt{Type: rfRead, ID: id, Handle: h, Off: uint64(c.off), Len: uint32(c.l)})
+			u.Eval(fmt.Sprintf("bwd/tail-read/%#x/%d/%d", pf, c.off, c.l))
+			ok := err == nil && len(r) == 1
+			if ok && c.want >= 0 {
+				ok = r[0].Type == rfData && string(r[0].Data) == string(vfPattern(1, int64(c.off), c.want))
+			} else if ok {
+				ok = r[0].Type == rfStatus && r[0].Code == rfEOF
+			}
+			if !ok {
+				u.Violation(fmt.Sprintf("backward-tail-read:pflags=%#x", pf), fmt.Sprintf("READ off=%d len=%d on a handle opened with pflags %#x of a 100-byte file answered %v %v; the handler returned %d bytes", c.off, c.l, pf, r, err, c.want), nil)
+			}
+		}
+		id++
+		rs.R.Phase(60*time.Second, vfPkt{Type: rfClose, ID: id, Handle: h})
+	}
 	id++
 	if r, err := rs.R.Phase(60*time.Second, vfPkt{Type: rfStat, ID: id, Path: "/file"}); err != nil || len(r) != 1 || r[0].Type != rfAttrs || r[0].Attrs.Size != 100 || r[0].Attrs.Perm != 0o100644 || r[0].Attrs.Mtime != 1500000000 {
 		u.Violation("backward-attrs", fmt.Sprintf("STAT of a handler FileInfo answered %v %v", r, err), nil)
